@@ -84,11 +84,18 @@ theorem failing_path_does_not_prevent_the_others (s : St) (hf : s.fx.f8a = true)
     (hc : NodupNames s.cfg.paths) (x : WP) (hx : x ∈ s.cfg.paths) (hok : s.failW.contains x.name = false) :
     ∃ k reg, (iteration s).watcher = some (k, reg) ∧ x ∈ reg := others_are_registered s hf hU hs hc x hx hok
 
-/-- **reported once per attempt** -/
+/-- **reported once per attempt**: when the back-end's error names at most one path (the path it was given, another spelling
+    of it, or none) that is one runtime error per failing attempt -/
 theorem one_error_per_failing_attempt (s : St) (hf : s.fx.f8a = true) (hU : s.failU = []) (hs : Sync' s.priv)
-    (hc : NodupNames s.cfg.paths) (hne : s.cfg.paths ≠ []) :
+    (hc : NodupNames s.cfg.paths) (hne : s.cfg.paths ≠ []) (h1 : ∀ e ∈ s.named, e.2 ≤ 1) :
     (iteration s).errs = s.errs +
       ((s.cfg.paths.filter (fun p => !(ensureWatcher s).localSet.contains p)).filter (fun x => s.failW.contains x.name)).length :=
+  errors_one_per_attempt s hf hU hs hc hne h1
+
+/-- in general (`notify_multi_path_errors`): per failing attempt one error for each path its notify error names, one when it
+    names none — never a second error for the same attempt and path -/
+theorem errors_per_failing_attempt (s : St) (hf : s.fx.f8a = true) (hU : s.failU = []) (hs : Sync' s.priv)
+    (hc : NodupNames s.cfg.paths) (hne : s.cfg.paths ≠ []) : (iteration s).errs = s.errs + iterationErrs s :=
   errors_once_per_attempt s hf hU hs hc hne
 
 /-- and the worker's belief stays equal to what is registered (`Sync'`), so the failed path is attempted again on the next change -/
